@@ -90,7 +90,7 @@ def run_tlc(module, cfg_text, *, workers=None, timeout=600, env=None, extra=(), 
         cfg = os.path.join(tmp, "model.cfg")
         with open(cfg, "w") as f:
             f.write(cfg_text)
-        cmd = ["java", "-XX:+UseParallelGC", "-Xss16m", *java_opts, "-cp", JAR, "tlc2.TLC",
+        cmd = ["java", "-XX:+UseParallelGC", "-Xss16m", "-Djava.io.tmpdir=" + tmp, *java_opts, "-cp", JAR, "tlc2.TLC",
                "-metadir", os.path.join(tmp, "meta"), "-noGenerateSpecTE", "-config", cfg,
                "-workers", str(workers or NCPU)]
         if not deadlock:
